@@ -7,17 +7,17 @@ import (
 	"strings"
 )
 
-func (g *gen) acc() string { return "access(all)" }
+func (g *dmGen) acc() string { return "access(all)" }
 
-func (g *gen) addDecl(b *blk) { g.decls = append(g.decls, b.String()) }
+func (g *dmGen) addDecl(b *dmBlk) { g.decls = append(g.decls, b.String()) }
 
-func (g *gen) genEnum() {
+func (g *dmGen) genEnum() {
 	name := g.fresh("E")
-	raw := pick(g, []string{"UInt8", "UInt8", "Int", "UInt16"})
+	raw := dmPick(g, []string{"UInt8", "UInt8", "Int", "UInt16"})
 	n := 2 + g.r.Intn(3)
-	e := &enumDecl{name: name}
-	e.t = &ty{k: kEnum, name: name, q: g.qc}
-	b := &blk{}
+	e := &dmEnumDecl{name: name}
+	e.t = &dmTy{k: dmKEnum, name: name, q: g.qc}
+	b := &dmBlk{}
 	b.open("access(all) enum %s: %s {", name, raw)
 	for i := 0; i < n; i++ {
 		c := fmt.Sprintf("c%d", i)
@@ -32,30 +32,30 @@ func (g *gen) genEnum() {
 
 // qualName: how a top-level declared type is referred to (qualified inside/outside contracts:
 // the qualified name is valid in both places).
-func (g *gen) qualName(name string) string { return g.qc.name(name) }
+func (g *dmGen) qualName(name string) string { return g.qc.name(name) }
 
-func (g *gen) condition(s *scope, post bool, f *fnDecl) string {
+func (g *dmGen) condition(s *dmScope, post bool, f *dmFnDecl) string {
 	// conditions must be view: simple comparisons on parameters / self fields / result / before
 	var terms []string
 	for _, p := range f.params {
-		if p.t.eq(tInt) {
+		if p.t.eq(dmTInt) {
 			terms = append(terms, p.name)
 		}
 	}
 	if s.ctx.self != nil {
 		for _, fl := range s.ctx.self.fields {
-			if fl.t.eq(tInt) {
+			if fl.t.eq(dmTInt) {
 				terms = append(terms, "self."+fl.name)
 			}
 		}
 	}
-	if post && f.ret != nil && f.ret.eq(tInt) {
+	if post && f.ret != nil && f.ret.eq(dmTInt) {
 		terms = append(terms, "result")
 		if g.chance(1, 2) {
 			for _, x := range terms {
 				if strings.HasPrefix(x, "self.") {
 					g.feat("before")
-					return fmt.Sprintf("result %s before(%s) - 1000 || true: %s", pick(g, []string{">=", ">"}), x, g.strLit())
+					return fmt.Sprintf("result %s before(%s) - 1000 || true: %s", dmPick(g, []string{">=", ">"}), x, g.strLit())
 				}
 			}
 		}
@@ -63,25 +63,25 @@ func (g *gen) condition(s *scope, post bool, f *fnDecl) string {
 	if len(terms) == 0 {
 		return "true: " + g.strLit()
 	}
-	t := pick(g, terms)
+	t := dmPick(g, terms)
 	if g.chance(1, 12) {
 		// a condition that can fail
-		return fmt.Sprintf("%s %s %d: %s", t, pick(g, []string{">=", "<"}), g.r.Intn(5), g.strLit())
+		return fmt.Sprintf("%s %s %d: %s", t, dmPick(g, []string{">=", "<"}), g.r.Intn(5), g.strLit())
 	}
-	if post && g.chance(1, 3) && f.ret != nil && f.ret.k == kOpt {
+	if post && g.chance(1, 3) && f.ret != nil && f.ret.k == dmKOpt {
 		return "result == nil || true: " + g.strLit()
 	}
 	return fmt.Sprintf("%s > -1000 || %s <= 0: %s", t, t, g.strLit())
 }
 
-func (g *gen) conditions(b *blk, s *scope, f *fnDecl, emitOK bool) {
+func (g *dmGen) conditions(b *dmBlk, s *dmScope, f *dmFnDecl, emitOK bool) {
 	if g.chance(1, 2) {
 		g.feat("pre-condition")
 		b.open("pre {")
 		b.add("%s", g.condition(s, false, f))
 		if emitOK && len(g.events) > 0 && g.chance(1, 2) {
-			ev := pick(g, g.events)
-			vs := &scope{ctx: &fctx{view: true}}
+			ev := dmPick(g, g.events)
+			vs := &dmScope{ctx: &dmFctx{view: true}}
 			b.add("emit %s", g.call(vs, "", ev, 1))
 			g.feat("emit-in-condition")
 		}
@@ -95,7 +95,7 @@ func (g *gen) conditions(b *blk, s *scope, f *fnDecl, emitOK bool) {
 	}
 }
 
-func (g *gen) paramList(ps []param) string {
+func (g *dmGen) paramList(ps []dmParam) string {
 	var xs []string
 	for _, p := range ps {
 		switch p.label {
@@ -108,7 +108,7 @@ func (g *gen) paramList(ps []param) string {
 	return strings.Join(xs, ", ")
 }
 
-func (g *gen) sig(f *fnDecl) string {
+func (g *dmGen) sig(f *dmFnDecl) string {
 	v := ""
 	if f.view {
 		v = "view "
@@ -124,22 +124,22 @@ func (g *gen) sig(f *fnDecl) string {
 	return s
 }
 
-func (g *gen) genStructIface() *iface {
+func (g *dmGen) genStructIface() *dmIface {
 	name := g.fresh("SI")
-	i := &iface{name: name, q: g.qc}
-	b := &blk{}
+	i := &dmIface{name: name, q: g.qc}
+	b := &dmBlk{}
 	hdr := "access(all) struct interface " + name
 	if len(g.sifaces) > 0 && g.chance(1, 2) {
-		p := pick(g, g.sifaces)
+		p := dmPick(g, g.sifaces)
 		i.parents = append(i.parents, p)
 		hdr += ": " + p.ref()
 		g.feat("interface-inheritance")
 	}
 	b.open(hdr + " {")
 	// required function with conditions
-	req := &fnDecl{name: g.fresh("req"), params: []param{{"_", "x", tInt}}, ret: tInt}
-	cs := &scope{ctx: &fctx{view: true}}
-	cb := &blk{}
+	req := &dmFnDecl{name: g.fresh("req"), params: []dmParam{{"_", "x", dmTInt}}, ret: dmTInt}
+	cs := &dmScope{ctx: &dmFctx{view: true}}
+	cb := &dmBlk{}
 	g.conditions(cb, cs, req, g.inContract != "")
 	if len(cb.lines) == 0 {
 		b.add("%s", g.sig(req))
@@ -152,13 +152,13 @@ func (g *gen) genStructIface() *iface {
 	}
 	i.methods = append(i.methods, req)
 	// default function
-	df := &fnDecl{name: g.fresh("dflt"), params: []param{{"_", "y", g.primType()}}, ret: pick(g, []*ty{tInt, tString, opt(tInt)})}
-	ds := &scope{ctx: &fctx{ret: df.ret, contract: g.inContract != ""}}
-	ds.add(&vr{name: "y", t: df.params[0].t, live: true})
+	df := &dmFnDecl{name: g.fresh("dflt"), params: []dmParam{{"_", "y", g.primType()}}, ret: dmPick(g, []*dmTy{dmTInt, dmTString, dmOpt(dmTInt)})}
+	ds := &dmScope{ctx: &dmFctx{ret: df.ret, contract: g.inContract != ""}}
+	ds.add(&dmVr{name: "y", t: df.params[0].t, live: true})
 	b.open(g.sig(df) + " {")
 	if g.chance(1, 2) {
 		b.add("let q = self.%s(%d)", req.name, g.r.Intn(5))
-		ds.add(&vr{name: "q", t: tInt, live: true})
+		ds.add(&dmVr{name: "q", t: dmTInt, live: true})
 	}
 	g.returnStmt(b, ds, 2)
 	b.close()
@@ -170,65 +170,65 @@ func (g *gen) genStructIface() *iface {
 	return i
 }
 
-func (g *gen) fieldType() *ty {
+func (g *dmGen) fieldType() *dmTy {
 	switch g.r.Intn(16) {
 	case 0, 1, 2, 3:
 		return g.primType()
 	case 4, 5:
-		return opt(g.primType())
+		return dmOpt(g.primType())
 	case 6:
-		return opt(opt(g.primType()))
+		return dmOpt(dmOpt(g.primType()))
 	case 7, 8:
-		return arr(g.primType())
+		return dmArr(g.primType())
 	case 9:
-		return dict(g.keyType(), g.primType())
+		return dmDict(g.keyType(), g.primType())
 	case 10, 11:
 		if len(g.structs) > 0 {
-			c := pick(g, g.structs)
+			c := dmPick(g, g.structs)
 			if g.chance(1, 2) {
-				return opt(c.t)
+				return dmOpt(c.t)
 			}
 			return c.t
 		}
-		return tInt
+		return dmTInt
 	case 12:
 		if len(g.structs) > 0 {
-			return arr(pick(g, g.structs).t)
+			return dmArr(dmPick(g, g.structs).t)
 		}
-		return arr(opt(tInt))
+		return dmArr(dmOpt(dmTInt))
 	case 13:
-		return fun(tInt, tInt)
+		return dmFun(dmTInt, dmTInt)
 	case 14:
-		return tAnyStruct
+		return dmTAnyStruct
 	default:
-		return tInt
+		return dmTInt
 	}
 }
 
-func (g *gen) genStruct() *comp {
+func (g *dmGen) genStruct() *dmComp {
 	name := g.fresh("S")
-	c := &comp{name: name}
-	c.t = &ty{k: kStruct, name: name, comp: c, q: g.qc}
+	c := &dmComp{name: name}
+	c.t = &dmTy{k: dmKStruct, name: name, comp: c, q: g.qc}
 	n := 1 + g.r.Intn(4)
 	hasInt := false
 	for i := 0; i < n; i++ {
 		t := g.fieldType()
 		if i == 0 && g.chance(2, 3) {
-			t = tInt
+			t = dmTInt
 		}
-		if t.eq(tInt) {
+		if t.eq(dmTInt) {
 			hasInt = true
 		}
-		c.fields = append(c.fields, field{name: fmt.Sprintf("f%d", i), t: t, mut: g.chance(2, 3), access: "all"})
+		c.fields = append(c.fields, dmField{name: fmt.Sprintf("f%d", i), t: t, mut: g.chance(2, 3), access: "all"})
 	}
 	_ = hasInt
 	hdr := "access(all) struct " + name
 	if len(g.sifaces) > 0 && g.chance(1, 2) {
-		i := pick(g, g.sifaces)
+		i := dmPick(g, g.sifaces)
 		c.conf = append(c.conf, i)
 		hdr += ": " + i.ref()
 	}
-	b := &blk{}
+	b := &dmBlk{}
 	b.open(hdr + " {")
 	var ps []string
 	for _, f := range c.fields {
@@ -244,11 +244,11 @@ func (g *gen) genStruct() *comp {
 		b.add("self.%s = %s", f.name, f.name)
 	}
 	b.close()
-	selfScope := func(ctx *fctx) *scope {
+	selfScope := func(ctx *dmFctx) *dmScope {
 		ctx.self = c
-		s := &scope{ctx: ctx}
+		s := &dmScope{ctx: ctx}
 		for _, f := range c.fields {
-			s.add(&vr{name: "self." + f.name, t: f.t, mut: f.mut && !ctx.view, field: true, live: true})
+			s.add(&dmVr{name: "self." + f.name, t: f.t, mut: f.mut && !ctx.view, field: true, live: true})
 		}
 		return s
 	}
@@ -258,9 +258,9 @@ func (g *gen) genStruct() *comp {
 			if !strings.HasPrefix(m.name, "req") {
 				continue
 			}
-			impl := &fnDecl{name: m.name, params: m.params, ret: m.ret, mutating: true}
-			s := selfScope(&fctx{ret: m.ret, contract: g.inContract != ""})
-			s.add(&vr{name: "x", t: tInt, live: true})
+			impl := &dmFnDecl{name: m.name, params: m.params, ret: m.ret, mutating: true}
+			s := selfScope(&dmFctx{ret: m.ret, contract: g.inContract != ""})
+			s.add(&dmVr{name: "x", t: dmTInt, live: true})
 			b.open(g.sig(impl) + " {")
 			g.stmts(b, s, g.r.Intn(2), 2)
 			g.returnStmt(b, s, 2)
@@ -271,14 +271,14 @@ func (g *gen) genStruct() *comp {
 	// setters / getters
 	for _, f := range c.fields {
 		if f.mut && g.chance(1, 2) {
-			m := &fnDecl{name: "set" + strings.ToUpper(f.name), params: []param{{"_", "v", f.t}}, mutating: true}
+			m := &dmFnDecl{name: "set" + strings.ToUpper(f.name), params: []dmParam{{"_", "v", f.t}}, mutating: true}
 			b.open(g.sig(m) + " {")
 			b.add("self.%s = v", f.name)
 			b.close()
 			c.methods = append(c.methods, m)
 		}
-		if g.chance(1, 3) && f.t.k != kFun {
-			m := &fnDecl{name: "get" + strings.ToUpper(f.name), ret: f.t, view: true}
+		if g.chance(1, 3) && f.t.k != dmKFun {
+			m := &dmFnDecl{name: "get" + strings.ToUpper(f.name), ret: f.t, view: true}
 			b.open(g.sig(m) + " {")
 			b.add("return self.%s", f.name)
 			b.close()
@@ -287,15 +287,15 @@ func (g *gen) genStruct() *comp {
 	}
 	// a computing method with conditions and a body
 	if g.chance(3, 4) {
-		m := &fnDecl{name: g.fresh("m"), params: []param{{"_", "x", tInt}, {"", "o", opt(g.primType())}}, ret: g.valueType(1), mutating: true}
-		if m.ret.k == kFun {
-			m.ret = tInt
+		m := &dmFnDecl{name: g.fresh("m"), params: []dmParam{{"_", "x", dmTInt}, {"", "o", dmOpt(g.primType())}}, ret: g.valueType(1), mutating: true}
+		if m.ret.k == dmKFun {
+			m.ret = dmTInt
 		}
-		s := selfScope(&fctx{ret: m.ret, contract: g.inContract != ""})
-		s.add(&vr{name: "x", t: tInt, live: true})
-		s.add(&vr{name: "o", t: m.params[1].t, live: true})
+		s := selfScope(&dmFctx{ret: m.ret, contract: g.inContract != ""})
+		s.add(&dmVr{name: "x", t: dmTInt, live: true})
+		s.add(&dmVr{name: "o", t: m.params[1].t, live: true})
 		b.open(g.sig(m) + " {")
-		g.conditions(b, &scope{ctx: &fctx{view: true, self: c}}, m, false)
+		g.conditions(b, &dmScope{ctx: &dmFctx{view: true, self: c}}, m, false)
 		g.stmts(b, s, 1+g.r.Intn(2), 2)
 		g.fnEnd(b, s, 2)
 		b.close()
@@ -310,7 +310,7 @@ func (g *gen) genStruct() *comp {
 
 // fnEnd ends a function body that returns a value: a plain return or an if/else returning in both
 // branches without a trailing return.
-func (g *gen) fnEnd(b *blk, s *scope, d int) {
+func (g *dmGen) fnEnd(b *dmBlk, s *dmScope, d int) {
 	if s.ctx.ret == nil {
 		return
 	}
@@ -326,62 +326,62 @@ func (g *gen) fnEnd(b *blk, s *scope, d int) {
 	g.returnStmt(b, s, d)
 }
 
-func (g *gen) paramType() *ty {
+func (g *dmGen) paramType() *dmTy {
 	switch g.r.Intn(14) {
 	case 0, 1, 2:
 		return g.primType()
 	case 3, 4, 5:
 		// optional parameters: arguments are boxed at the call
 		t := g.valueType(1)
-		if t.k == kFun || t.k == kOpt {
-			t = tString
+		if t.k == dmKFun || t.k == dmKOpt {
+			t = dmTString
 		}
-		return opt(t)
+		return dmOpt(t)
 	case 6:
 		if len(g.structs) > 0 {
-			return ref(pick(g, g.structs).t)
+			return dmRef(dmPick(g, g.structs).t)
 		}
 	case 7:
-		return aref("Mutate", arr(g.primType()))
+		return dmAref("Mutate", dmArr(g.primType()))
 	case 8:
-		return fun(g.primType(), tInt)
+		return dmFun(g.primType(), dmTInt)
 	case 9:
-		return tAnyStruct
+		return dmTAnyStruct
 	case 10:
 		if len(g.structs) > 0 {
-			return opt(pick(g, g.structs).t)
+			return dmOpt(dmPick(g, g.structs).t)
 		}
 	}
 	return g.valueType(1)
 }
 
-func (g *gen) genFunc() *fnDecl {
-	f := &fnDecl{name: g.fresh("f")}
+func (g *dmGen) genFunc() *dmFnDecl {
+	f := &dmFnDecl{name: g.fresh("f")}
 	if g.inContract != "" {
 		// contract functions are always called through the contract (`C.f(...)`), also inside it
-		f.q = &qualCtx{prefix: g.inContract + ".", outside: true}
+		f.q = &dmQualCtx{prefix: g.inContract + ".", outside: true}
 	}
 	n := 1 + g.r.Intn(3)
-	s := &scope{ctx: &fctx{contract: g.inContract != ""}}
+	s := &dmScope{ctx: &dmFctx{contract: g.inContract != ""}}
 	for i := 0; i < n; i++ {
-		p := param{label: pick(g, []string{"_", "_", "", "with"}), name: fmt.Sprintf("p%d", i), t: g.paramType()}
+		p := dmParam{label: dmPick(g, []string{"_", "_", "", "with"}), name: fmt.Sprintf("p%d", i), t: g.paramType()}
 		if p.label == "with" {
 			p.label = fmt.Sprintf("l%d", i)
 		}
 		f.params = append(f.params, p)
-		s.add(&vr{name: p.name, t: p.t, live: true})
+		s.add(&dmVr{name: p.name, t: p.t, live: true})
 	}
 	if g.chance(5, 6) {
 		f.ret = g.valueType(1)
-		if f.ret.k == kFun && g.chance(1, 2) {
-			f.ret = tInt
+		if f.ret.k == dmKFun && g.chance(1, 2) {
+			f.ret = dmTInt
 		}
 	}
 	s.ctx.ret = f.ret
-	b := &blk{}
+	b := &dmBlk{}
 	b.open(g.sig(f) + " {")
 	if g.chance(1, 3) {
-		g.conditions(b, &scope{ctx: &fctx{view: true}}, f, false)
+		g.conditions(b, &dmScope{ctx: &dmFctx{view: true}}, f, false)
 	}
 	g.stmts(b, s, 1+g.r.Intn(3), 3)
 	g.fnEnd(b, s, 3)
@@ -392,7 +392,7 @@ func (g *gen) genFunc() *fnDecl {
 }
 
 // script assembles a complete script program.
-func (g *gen) script() *Scenario {
+func (g *dmGen) script() *dmScenario {
 	g.rareKnown = g.chance(1, 40)
 	if g.chance(2, 3) {
 		g.genEnum()
@@ -417,11 +417,11 @@ func (g *gen) script() *Scenario {
 		g.genEntitlementFamily()
 	}
 	ret := g.valueType(1)
-	if ret.k == kFun && g.chance(3, 4) {
-		ret = tInt
+	if ret.k == dmKFun && g.chance(3, 4) {
+		ret = dmTInt
 	}
-	b := &blk{}
-	s := &scope{ctx: &fctx{ret: ret}}
+	b := &dmBlk{}
+	s := &dmScope{ctx: &dmFctx{ret: ret}}
 	b.open("access(all) fun main(): %s {", ret.String())
 	g.stmts(b, s, 2+g.r.Intn(4), 3)
 	if withRes {
@@ -436,7 +436,7 @@ func (g *gen) script() *Scenario {
 	g.returnStmt(b, s, 2)
 	b.close()
 	g.addDecl(b)
-	sc := scriptScenario(strings.Join(g.decls, "\n"))
+	sc := dmScriptScenario(strings.Join(g.decls, "\n"))
 	sc.Features = g.features()
 	return sc
 }
